@@ -419,6 +419,10 @@ func (vr *variableResolver) resolve(ctx *ExecutionContext) (*Value, error) {
 		// into the execution context (e.g. in a for-loop)
 		if current.Type() == typeOfValuePtr {
 			tmpValue := current.Interface().(*Value)
+			if tmpValue == nil {
+				// a nil *Value is just another nil
+				return AsValue(nil), nil
+			}
 			current = tmpValue.val
 			isSafe = tmpValue.safe
 		}
